@@ -15,7 +15,7 @@
    absent at that flush are empty). *)
 From Coq Require Import NArith List Permutation.
 From LV Require Import lib.Bytes model.CrashBase model.SyncedPool model.Flagged
-  proofs.CrashBaseProofs proofs.SyncedPoolProofs proofs.FlaggedProofs.
+  proofs.CrashBaseProofs proofs.SyncedPoolProofs proofs.FlaggedProofs proofs.FlaggedAnyIds.
 Import ListNotations.
 Local Open Scope N_scope.
 
@@ -35,6 +35,16 @@ Theorem C25_flagged_crash_consistent : forall fk h k l,
   crash_consistent fk (fr_recs (run_flagged fk h)) k (crash (fr_log (run_flagged fk h)) k) l.
 Proof. exact flagged_crash_consistent. Qed.
 
+(* Without any assumption on the flush IDs: the record may be that of the flush in progress at the
+   crash point (it is a record of the history; its position is bounded by the end of the log
+   instead of by k). *)
+Theorem C25_flagged_crash_consistent_any_ids : forall fk h k l,
+  history_avoids fk h = true ->
+  lists_world l (crash (fr_log (run_flagged fk h)) k) ->
+  crash_consistent fk (fr_recs (run_flagged fk h)) (max k (length (fr_log (run_flagged fk h))))
+                   (crash (fr_log (run_flagged fk h)) k) l.
+Proof. exact flagged_crash_consistent_any_ids. Qed.
+
 (* Recovery reads the verdict off the marks alone: an OK verdict means every surviving database
    carries exactly that (non-dirty) mark, "no flush" means no database carries a mark. *)
 Theorem C25_check_ok_some : forall fk l m,
@@ -52,20 +62,17 @@ Theorem C25_check_order_independent : forall fk l1 l2 x,
 Proof. exact check_synced_perm. Qed.
 
 (* non-vacuity: a history with two flushes, a queued drop and crash points of every kind *)
-Definition C25_ex_fk : bytes := [255].
-Definition C25_ex_h : list hop :=
-  [HPut 1 [97] [1]; HPut 2 [98] [7]; HFlush [1] []; HPut 1 [97] [2]; HDrop 2; HFlush [2] []].
 Example C25_pool_example :
-  history_avoids C25_ex_fk C25_ex_h = true /\
-  map (fun k => check_synced C25_ex_fk (crash (rs_log (run_pool C25_ex_fk 1 C25_ex_h)) k)) (seq 0 13)
+  history_avoids C25Ex.fk C25Ex.h = true /\
+  map (fun k => check_synced C25Ex.fk (crash (rs_log (run_pool C25Ex.fk 1 C25Ex.h)) k)) (seq 0 13)
   = [COk None; COk None; CDirty; CDirty; CDirty; CDirty; CDirty; CDirty;
      COk (Some [0; 1]); COk (Some [0; 1]); CDirty; CDirty; COk (Some [0; 2])] /\
-  map r_pos (rs_recs (run_pool C25_ex_fk 1 C25_ex_h)) = [8%nat; 12%nat].
+  map r_pos (rs_recs (run_pool C25Ex.fk 1 C25Ex.h)) = [8%nat; 12%nat].
 Proof. vm_compute. repeat split. Qed.
 
 Example C25_flagged_example :
-  history_avoids C25_ex_fk C25_ex_h = true /\ flush_ids_change None C25_ex_h = true /\
-  map (fun k => check_synced C25_ex_fk (crash (fr_log (run_flagged C25_ex_fk C25_ex_h)) k)) (seq 0 13)
+  history_avoids C25Ex.fk C25Ex.h = true /\ flush_ids_change None C25Ex.h = true /\
+  map (fun k => check_synced C25Ex.fk (crash (fr_log (run_flagged C25Ex.fk C25Ex.h)) k)) (seq 0 13)
   = [COk None; COk None; CDirty; CDirty; CDirty; CDirty; CDirty; CDirty;
      COk (Some [0; 1]); CDirty; CDirty; CDirty; COk (Some [0; 2])].
 Proof. vm_compute. repeat split. Qed.
@@ -78,6 +85,7 @@ Proof. exact flagged_same_id_counterexample. Qed.
 
 Print Assumptions C25_pool_crash_consistent.
 Print Assumptions C25_flagged_crash_consistent.
+Print Assumptions C25_flagged_crash_consistent_any_ids.
 Print Assumptions C25_check_ok_some.
 Print Assumptions C25_check_ok_none.
 Print Assumptions C25_check_order_independent.
